@@ -319,6 +319,17 @@ func init() {
 	}})
 }
 
+func init() {
+	// a package without the optional parts: no styles part (hence no Override for it), no relationships of the main part
+	c05AgreeBases = append(c05AgreeBases, c05Doc{"opened-foreign(minimal: one paragraph, no styles part)", func() *document.Document {
+		o, errS := reopen(foreign.Compose(nil))
+		if errS != "" {
+			panic("c05: minimal foreign package does not open: " + errS)
+		}
+		return o
+	}})
+}
+
 func c05Agreement(each func(desc map[string]interface{}, run func(idx int64)), c *shard.Ctx, dir string, depth int) {
 	firsts := []string{"none", "ToBytes", "Save"}
 	orders := []string{"ToBytes-then-Save", "Save-then-ToBytes"}
